@@ -117,6 +117,7 @@ Finished == th[T].lives = MaxLives /\ th[T].pc = "idle" /\ ~needProbe
 Emit == Finished => PrintT(<<"REPLAY", ToJson(hist)>>)
 View == <<vars, hist, needProbe>>
 MCNVals3 == {-1, 0, 1, 2}
+MCNValsPlain == {-1}
 MCNValsC == {0, 1, 2}
 MCFuncSeq1 == <<"f1">>
 MCSites1 == {1}
